@@ -344,3 +344,26 @@ func TestVerif_C04_Processor(t *testing.T) {
 		return v, o
 	}})
 }
+
+// ------------------------------------------------------------------ C07 (behavioural): contracts accept what the node completes
+
+func TestVerif_C07_ContractsAccept(t *testing.T) {
+	c, err := vh.LoadContracts()
+	if err != nil {
+		t.Fatalf("VERIF-VIOLATION harness/extractor: %v", err)
+	}
+	vh.Check(t, vh.Prop[procCase]{ID: "C07", Gen: func(t *rapid.T) procCase {
+		nmsg := rapid.IntRange(1, 2).Draw(t, "nmsg")
+		return procCase{Msgs: genMsgs(t, nmsg, false), Ops: genOps(t, nmsg, 25, false, false)}
+	}, Run: func(pc procCase) (*vh.Violation, vh.Outcome) {
+		v, o := runProc(pc, oracles{contracts: c, pfx: "C07"}, 50)
+		nt := false
+		for _, l := range o.Labels {
+			if l == "contracts-accepted-published-vaa" {
+				nt = true
+			}
+		}
+		o.NonTrivial = nt
+		return v, o
+	}})
+}
